@@ -811,11 +811,28 @@ def correspondence(ctx, broken_obligations=()):
     }
     try:
         with TmpWorkspace():
-            regression_corpus(ctx)
-            replay_witnesses(ctx, known)
-            cov = diff.differential(ctx, "lints", cases, split=split, canon=canon, oracle=oracle, known=known,
-                                    shrinker=shrinker, nontrivial=nontrivial, describe=describe)
+            # a stage that breaks without a failing input (a witness that no longer reproduces, a model/implementation
+            # disagreement the oracle accepts) is kept pending while the later stages search for a concrete one
+            pending = []
+            for stage in (lambda: regression_corpus(ctx), lambda: replay_witnesses(ctx, known)):
+                try:
+                    stage()
+                except core.Violation as v:
+                    if v.found_input:
+                        raise
+                    pending.append(v)
+            try:
+                cov = diff.differential(ctx, "lints", cases, split=split, canon=canon, oracle=oracle, known=known,
+                                        shrinker=shrinker, nontrivial=nontrivial, describe=describe)
+            except core.Violation as v:
+                if v.found_input:
+                    raise
+                pending.append(v)
+                cov = dict(getattr(v, "coverage", None) or {})
             cov["permutation_pairs_checked"] = permutation_check(ctx, pairs, known)
+            if pending:
+                pending[0].coverage = cov
+                raise pending[0]
     except core.Violation as v:
         c = dict(getattr(v, "coverage", None) or {})
         c.update(meta)
